@@ -28,6 +28,7 @@ except ImportError:
 
 from hera.data import Label, Program, Settings
 from hera.op import AbstractOperation
+from hera.utils import Path
 from hera.vm import VirtualMachine
 
 
@@ -157,7 +158,9 @@ class Debugger:
                 raise ValueError("could not locate label `{}`.".format(b)) from None
         else:
             for pc, op in enumerate(self.program.code):
-                if op.loc.path == path and op.loc.line == lineno_as_int:
+                # A path that the user typed is a plain string: compare the text.
+                op_path = op.loc.path if isinstance(path, Path) else str(op.loc.path)
+                if op_path == path and op.loc.line == lineno_as_int:
                     return pc
 
             raise ValueError("could not find corresponding line.")
